@@ -134,7 +134,7 @@ def gen_checks(rng, dtype):
 
 def gen_case(rng):
     dtype = rng.choice(["int64", "int64", "float64", "str", "str"])
-    kind = rng.choice(["series", "series", "column", "index", "frame"])
+    kind = rng.choice(["series", "series", "column", "index", "frame", "frame", "multiindex", "frame-index"])
     spec = {"name": rng.choice(["a", "b"]), "regex": None, "dtype": dtype, "nullable": rng.random() < 0.3 and dtype != "int64",
             "unique": rng.random() < 0.2, "required": True, "coerce": False, "reportDup": "none",
             "checks": gen_checks(rng, dtype), "default": None}
@@ -187,7 +187,14 @@ def build(case):
         return pa.Index(name=spec["name"], **kw)
     if case["kind"] == "column":
         return pa.Column(name=spec["name"], **kw)
+    if case["kind"] == "multiindex":
+        kw.pop("required", None)
+        kw.pop("regex", None)
+        return pa.MultiIndex([pa.Index(name="lv0", **kw), pa.Index(int, pa.Check.in_range(0, 9), name="lv1")])
     other = pa.Column(int, pa.Check.ge(0))
+    if case["kind"] == "frame-index":
+        return pa.DataFrameSchema({spec["name"]: pa.Column(**kw), "zz": other},
+                                  index=pa.Index(int, pa.Check.ge(0), unique=True, name="ix"))
     if case.get("frame_variant") == "frame-unique":
         return pa.DataFrameSchema({spec["name"]: pa.Column(**kw), "zz": other}, unique=[spec["name"]])
     if case.get("frame_variant") == "regex-unique":
@@ -201,6 +208,8 @@ def elements_of(case, draw):
         return draw.tolist()
     if case["kind"] == "index":
         return list(draw)
+    if case["kind"] == "multiindex":
+        return list(draw.get_level_values(0))
     if case.get("frame_variant") == "regex-unique":
         return [x for col in draw.columns if col != "zz" for x in draw[col].tolist()]
     return draw[spec["name"]].tolist()
@@ -244,7 +253,7 @@ def run_schemas(rep, cases, k):
             with warnings.catch_warnings():
                 warnings.simplefilter("ignore")
                 try:
-                    if c["kind"] == "index":
+                    if c["kind"] in ("index", "multiindex"):
                         S.validate(pd.DataFrame(index=d))
                     else:
                         S.validate(d)
